@@ -152,6 +152,7 @@ def run_case(cfg):
     nontrivial = (completed >= 10 and st["adversary_accepted"] >= 50) or bool(v)
     mem = cfg["mem"]
     sig = "|".join(str(x) for x in (mem["family"], cfg["workload"]["class"], cfg["nports"], cfg["cs"]["cmd_buffer_depth"]))
+    st["history_sample"] = (W_ if "W_" in dir() else W).trace_sample(tr)
     return dict(verdict="violated" if v else "held", violations=v[:6], stats=st, nontrivial=nontrivial, signature=sig)
 
 
